@@ -113,7 +113,8 @@ def universe(tier, rng):
                 sizes |= {300, 1000, 2500, 5000}
                 sizes = sorted(s for s in sizes if 60 <= s <= maxblocks)
                 for blocks in sizes:
-                    for (iratio, isz, nino) in [(0, 0, 0), (4096, 128, 0), (65536, 256, 0), (0, 256, 100), (1024, 256, 0)]:
+                    for (iratio, isz, nino) in [(0, 0, 0), (4096, 128, 0), (65536, 256, 0), (0, 256, 100), (1024, 256, 0),
+                                                (0, 128, blocks + blocks // 8), (0, 256, (blocks * 9) // 10)]:      # -N large enough for the ipg retry path
                         ex = EXTRAS[rng.randrange(len(EXTRAS))]
                         if ex[3] and fstype == "ext2":
                             ex = EXTRAS[0]
@@ -227,7 +228,10 @@ def one(args):
     line["fsck_out"] = out.decode("utf8", "replace")[-300:] if r2 else ""
     # reproducibility
     fresh()
-    r3, out, err = sh([mk] + opts + [img, str(c["blocks"])], env=env, timeout=120)
+    # the second run happens "three days later": the recorder library shifts time()/gettimeofday()/clock_gettime(), so
+    # anything that reads the wall clock instead of the fixed E2FSPROGS_FAKE_TIME shows up as a difference
+    e3 = dict(env, LD_PRELOAD=iotrace, VERIF_TIME_SHIFT="259207")
+    r3, out, err = sh([mk] + opts + [img, str(c["blocks"])], env=e3, timeout=120)
     line["repro"] = 1 if (r3 == 0 and open(img, "rb").read() == data1) else 0
     line["_img"] = img
     return line
